@@ -239,46 +239,6 @@ namespace ZapVerif.C19
 set_option linter.unusedSimpArgs false
 open ZapVerif ZapVerif.GoMini ZapVerif.TransOpen ZapVerif.Gen.TransOpen
 
-/-- `Config.openSinks`: the outputs are opened first; if that fails NOTHING else happens (`Open` closed what it had
-    opened); otherwise the error outputs are opened, and if THAT fails the outputs' close function is called — once —
-    before the error is returned; on success neither close function is called -/
-theorem openSinks_matches_source (P : Par) (outs errs : Val) (ev : List Val) (fuel : Nat) :
-    run (X P) (fuel + 1) "openSinks" [] [("ev", .list ev), ("outputPaths", outs), ("errorOutputPaths", errs)] =
-      if (P.zapOpen outs).2.2.isEmpty then
-        (if (P.zapOpen errs).2.2.isEmpty then
-          .done [.list (P.zapOpen outs).1, .list (P.zapOpen errs).1, .list []]
-            [("ev", .list (ev ++ [.list [TransOpen.nm "zap.Open", outs], .list [TransOpen.nm "zap.Open", errs]])),
-             ("outputPaths", outs), ("errorOutputPaths", errs)]
-        else
-          .done [.list [], .list [], .list (P.zapOpen errs).2.2]
-            [("ev", .list (ev ++ [.list [TransOpen.nm "zap.Open", outs], .list [TransOpen.nm "zap.Open", errs],
-                .list [TransOpen.nm "Closure.call", .list (P.zapOpen outs).2.1]])),
-             ("outputPaths", outs), ("errorOutputPaths", errs)])
-      else
-        .done [.list [], .list [], .list (P.zapOpen outs).2.2]
-          [("ev", .list (ev ++ [.list [TransOpen.nm "zap.Open", outs]])), ("outputPaths", outs), ("errorOutputPaths", errs)] := by
-  have hne : ∀ (x : Val) (l : List Val), ¬ (((x :: l).length : Int) = 0) := by intro x l; simp; omega
-  cases ho : (P.zapOpen outs).2.2 with
-  | cons e es =>
-    refine run_of_fin (X P) _ "openSinks" Gen.TransOpen.openSinks [] _ _ _ rfl rfl ?_
-    show (exec (X P) (fuel + 1) openSinks_body ⟨[], _⟩).fin = _
-    rw [exec_succ]
-    have hp : ¬ ((es.length : Int) + 1 = 0) := by omega
-    simp [openSinks_body, ho, hp, nm_zapOpen]
-  | nil =>
-    cases he : (P.zapOpen errs).2.2 with
-    | cons e es =>
-      refine run_of_fin (X P) _ "openSinks" Gen.TransOpen.openSinks [] _ _ _ rfl rfl ?_
-      show (exec (X P) (fuel + 1) openSinks_body ⟨[], _⟩).fin = _
-      rw [exec_succ]
-      have hp : ¬ ((es.length : Int) + 1 = 0) := by omega
-      simp [openSinks_body, ho, he, hp, nm_zapOpen, nm_closure]
-    | nil =>
-      refine run_of_fin (X P) _ "openSinks" Gen.TransOpen.openSinks [] _ _ _ rfl rfl ?_
-      show (exec (X P) (fuel + 1) openSinks_body ⟨[], _⟩).fin = _
-      rw [exec_succ]
-      simp [openSinks_body, ho, he, nm_zapOpen]
-
 /-- the standard streams are recognised by NAME only; every other path goes to the opener, once -/
 def pathSpec (P : Par) (path : Bytes) (ev : List Val) : (List Val × List Val) × List Val :=
   if path = [115, 116, 100, 111, 117, 116] then (([.int 1], []), ev)
@@ -534,15 +494,15 @@ def oaJunk : Option (Val × Val × Val) → Env
   | none => []
   | some (p, s, e) => [("l3", p), ("l4", s), ("l5", e)]
 
-theorem open_loop_matches_source (P : Par) (p0 : Val) (rec : Stmt → State → GoMini.Out) :
+theorem open_loop_matches_source (P : Par) (p0 : Val) (rec : Stmt → State → GoMini.Out) (fl0 : Env) :
     ∀ (ps : List Val) (a : OA) (i : Nat) (t : Option (Val × Val × Val)),
     ∃ t', rangeRun (execS (X P) rec openAll_loop0.rbody) .blank (.loc "l3") ps i
-        ⟨[("p0", p0), ("l0", .list a.w), ("l1", .list a.c), ("l2", .list a.e)] ++ oaJunk t, [("ev", .list a.ev)]⟩ =
+        ⟨[("p0", p0), ("l0", .list a.w), ("l1", .list a.c), ("l2", .list a.e)] ++ oaJunk t, ("ev", .list a.ev) :: fl0⟩ =
       .normal ⟨[("p0", p0), ("l0", .list (ps.foldl (openStep P) a).w), ("l1", .list (ps.foldl (openStep P) a).c),
-          ("l2", .list (ps.foldl (openStep P) a).e)] ++ oaJunk t', [("ev", .list (ps.foldl (openStep P) a).ev)]⟩
+          ("l2", .list (ps.foldl (openStep P) a).e)] ++ oaJunk t', ("ev", .list (ps.foldl (openStep P) a).ev) :: fl0⟩
   | [], a, i, t => ⟨t, by simp [rangeRun]⟩
   | p :: r, a, i, t => by
-    obtain ⟨t', hrest⟩ := open_loop_matches_source P p0 rec r (openStep P a p) (i + 1)
+    obtain ⟨t', hrest⟩ := open_loop_matches_source P p0 rec fl0 r (openStep P a p) (i + 1)
       (some (p, .list (P.newSink p).1, .list (P.newSink p).2))
     refine ⟨t', ?_⟩
     cases he : (P.newSink p).2 with
@@ -563,13 +523,14 @@ theorem open_loop_matches_source (P : Par) (p0 : Val) (rec : Stmt → State → 
         simpa [oaJunk, openAll_loop0, Stmt.rbody, nm_newSink, errV, openFmt] using hrest
 
 /-- the cleanup loop: `Close` on every sink that was opened, in the order they were opened -/
-theorem open_close_matches_source (P : Par) (rec : Stmt → State → GoMini.Out) (p0 w c e : Val) (t0 : Option (Val × Val × Val)) :
+theorem open_close_matches_source (P : Par) (rec : Stmt → State → GoMini.Out) (p0 w c e : Val) (t0 : Option (Val × Val × Val))
+    (fl0 : Env) :
     ∀ (cs : List Val) (ev : List Val) (i : Nat) (t : Option Val),
     ∃ t', rangeRun (execS (X P) rec openAll_loop1.rbody) .blank (.loc "l6") cs i
         ⟨[("p0", p0), ("l0", w), ("l1", c), ("l2", e)] ++ oaJunk t0 ++ (match t with | some v => [("l6", v)] | none => []),
-          [("ev", .list ev)]⟩ =
+          ("ev", .list ev) :: fl0⟩ =
       .normal ⟨[("p0", p0), ("l0", w), ("l1", c), ("l2", e)] ++ oaJunk t0 ++ (match t' with | some v => [("l6", v)] | none => []),
-        [("ev", .list (ev ++ cs.map fun c => .list [TransOpen.nm "Sink.Close", c]))]⟩ := by
+        ("ev", .list (ev ++ cs.map fun c => .list [TransOpen.nm "Sink.Close", c])) :: fl0⟩ := by
   intro cs
   induction cs with
   | nil => intro ev i t; exact ⟨t, by cases t <;> simp [rangeRun]⟩
@@ -581,34 +542,42 @@ theorem open_close_matches_source (P : Par) (rec : Stmt → State → GoMini.Out
       simp [rangeRun, openAll_loop1, Stmt.rbody, oaJunk, nm_close, State.assign1, Env.set, List.append_assoc] <;>
       simpa [oaJunk, openAll_loop1, Stmt.rbody, nm_close, List.append_assoc] using h
 
+/-- the source text of the `closeAll` literal, as the translation of `open` carries it into the returned closure value -/
+def closeText : Val :=
+  match openAll_body.tl.tl.tl.tl.tl.tl with
+  | .ret [_, .call _ (.lit t :: _), _] => t
+  | _ => .list []
+
+def closeEv (cs : List Val) : List Val := cs.map fun c => .list [TransOpen.nm "Sink.Close", c]
+
+/-- the loop of `open` over all paths -/
+def openR (P : Par) (ps ev : List Val) : OA := ps.foldl (openStep P) ⟨[], [], [], ev⟩
+
+/-- what `open` returns, and what has been recorded when it does: if every path opened, the sinks and a close function
+    holding exactly them (nothing is closed); otherwise nil, nil and the combined error, after `Close` on every sink that
+    did open, in order -/
+def openOut (R : OA) : List Val × List Val :=
+  if R.e.isEmpty then ([.list R.w, .list [closeText, .list R.c], .list []], R.ev)
+  else ([.list [], .list [], .list R.e], R.ev ++ closeEv R.c)
+
+def openSpec (P : Par) (ps ev : List Val) : List Val × List Val := openOut (openR P ps ev)
+
 set_option maxRecDepth 8000 in
-/-- **open_matches_source**: every path is handed to the registry, in order, whatever happened before; if all opened,
-    the sinks and a close function holding exactly them are returned and nothing is closed; if any failed, every sink that
-    did open is closed (in order) before the combined error is returned with nil writers and a nil close function -/
-theorem open_matches_source (P : Par) (ps : List Val) (ev : List Val) (fuel : Nat) :
-    ∃ res ev', run (X P) (fuel + 1) "openAll" [.list ps] [("ev", .list ev)] = .done res [("ev", .list ev')] ∧
-      (if (ps.foldl (openStep P) ⟨[], [], [], ev⟩).e.isEmpty then
-         (∃ text, res = [.list (ps.foldl (openStep P) ⟨[], [], [], ev⟩).w,
-                         .list [text, .list (ps.foldl (openStep P) ⟨[], [], [], ev⟩).c], .list []]) ∧
-         ev' = (ps.foldl (openStep P) ⟨[], [], [], ev⟩).ev
-       else res = [.list [], .list [], .list (ps.foldl (openStep P) ⟨[], [], [], ev⟩).e] ∧
-         ev' = (ps.foldl (openStep P) ⟨[], [], [], ev⟩).ev ++
-           (ps.foldl (openStep P) ⟨[], [], [], ev⟩).c.map fun c => .list [TransOpen.nm "Sink.Close", c]) := by
-  have hfin : ∀ (res : List Val) (fl : Env),
-      (exec (X P) (fuel + 1) openAll_body ⟨[("p0", .list ps)], [("ev", .list ev)]⟩).fin = some (res, fl) →
-      run (X P) (fuel + 1) "openAll" [.list ps] [("ev", .list ev)] = .done res fl :=
-    fun res fl h => run_of_fin (X P) _ _ Gen.TransOpen.openAll _ _ _ _ rfl rfl h
-  obtain ⟨t1, hloop⟩ := open_loop_matches_source P (.list ps) (exec (X P) fuel) ps ⟨[], [], [], ev⟩ 0 none
-  generalize hR : ps.foldl (openStep P) ⟨[], [], [], ev⟩ = R at hloop ⊢
+theorem open_exec_matches_source (P : Par) (ps ev : List Val) (fl0 : Env) (fuel : Nat) :
+    (exec (X P) (fuel + 1) openAll_body ⟨[("p0", .list ps)], ("ev", .list ev) :: fl0⟩).fin =
+      some ((openSpec P ps ev).1, ("ev", .list (openSpec P ps ev).2) :: fl0) := by
+  obtain ⟨t1, hloop⟩ := open_loop_matches_source P (.list ps) (exec (X P) fuel) fl0 ps ⟨[], [], [], ev⟩ 0 none
+  show _ = some ((openOut (ps.foldl (openStep P) ⟨[], [], [], ev⟩)).1, ("ev", .list (openOut (ps.foldl (openStep P) ⟨[], [], [], ev⟩)).2) :: fl0)
+  generalize ps.foldl (openStep P) ⟨[], [], [], ev⟩ = R at hloop ⊢
   obtain ⟨w, c, e, ev1⟩ := R
+  simp only [openOut]
   have hL0 : openAll_loop0 = .range .blank (.loc "l3") (.loc "p0") openAll_loop0.rbody := rfl
-  have hL1 : openAll_loop1 = .range .blank (.loc "l6") (.loc "l1") openAll_loop1.rbody := rfl
   have hb : openAll_body = .seq openAll_body.hd (.seq openAll_body.tl.hd (.seq openAll_body.tl.tl.hd
       (.seq openAll_body.tl.tl.tl.hd (.seq openAll_loop0 openAll_body.tl.tl.tl.tl.tl)))) := rfl
   have hpre : ∀ k : State → GoMini.Out,
-      (execS (X P) (exec (X P) fuel) openAll_body ⟨[("p0", .list ps)], [("ev", .list ev)]⟩) =
+      (execS (X P) (exec (X P) fuel) openAll_body ⟨[("p0", .list ps)], ("ev", .list ev) :: fl0⟩) =
       (rangeRun (execS (X P) (exec (X P) fuel) openAll_loop0.rbody) .blank (.loc "l3") ps 0
-        ⟨[("p0", .list ps), ("l0", .list []), ("l1", .list []), ("l2", .list [])], [("ev", .list ev)]⟩).andThen
+        ⟨[("p0", .list ps), ("l0", .list []), ("l1", .list []), ("l2", .list [])], ("ev", .list ev) :: fl0⟩).andThen
         (execS (X P) (exec (X P) fuel) openAll_body.tl.tl.tl.tl.tl) := by
     intro _
     rw [hb]
@@ -619,30 +588,29 @@ theorem open_matches_source (P : Par) (ps : List Val) (ev : List Val) (fuel : Na
   simp only [oaJunk, List.append_nil] at hloop
   cases e with
   | nil =>
-    have h : ∃ text, (exec (X P) (fuel + 1) openAll_body ⟨[("p0", .list ps)], [("ev", .list ev)]⟩).fin =
-        some ([.list w, .list [text, .list c], .list []], [("ev", .list ev1)]) := by
-      generalize hE : (exec (X P) (fuel + 1) openAll_body ⟨[("p0", .list ps)], [("ev", .list ev)]⟩).fin = E
-      rw [exec_succ, hpre (fun σ => .normal σ), hloop] at hE
-      cases t1 <;> simp [openAll_body, Stmt.tl, oaJunk] at hE <;> (subst hE; exact ⟨_, rfl⟩)
-    obtain ⟨text, h⟩ := h
-    exact ⟨_, _, hfin _ _ h, by simp⟩
+    rw [exec_succ, hpre (fun σ => .normal σ), hloop]
+    cases t1 <;> simp [openAll_body, Stmt.tl, oaJunk, closeText]
   | cons e0 es =>
     have hp : ¬ ((es.length : Int) + 1 = 0) := by omega
-    obtain ⟨t2, hclose⟩ := open_close_matches_source P (exec (X P) fuel) (.list ps) (.list w) (.list c) (.list (e0 :: es)) t1
+    obtain ⟨t2, hclose⟩ := open_close_matches_source P (exec (X P) fuel) (.list ps) (.list w) (.list c) (.list (e0 :: es)) t1 fl0
       c ev1 0 none
-    have h : (exec (X P) (fuel + 1) openAll_body ⟨[("p0", .list ps)], [("ev", .list ev)]⟩).fin =
-        some ([.list [], .list [], .list (e0 :: es)],
-          [("ev", .list (ev1 ++ c.map fun c => .list [TransOpen.nm "Sink.Close", c]))]) := by
-      rw [exec_succ, hpre (fun σ => .normal σ), hloop]
-      simp only [Out.andThen_normal]
-      simp only [List.append_nil] at hclose
-      have hx : ∀ σ, execS (X P) (exec (X P) fuel) openAll_loop1 σ =
-          execS (X P) (exec (X P) fuel) (.range .blank (.loc "l6") (.loc "l1") openAll_loop1.rbody) σ := fun _ => rfl
-      cases t1 <;>
-        (simp [openAll_body, Stmt.tl, oaJunk, hp, hx] at hclose ⊢
-         rw [hclose]
-         cases t2 <;> simp)
-    exact ⟨_, _, hfin _ _ h, by simp⟩
+    rw [exec_succ, hpre (fun σ => .normal σ), hloop]
+    simp only [Out.andThen_normal]
+    simp only [List.append_nil] at hclose
+    have hx : ∀ σ, execS (X P) (exec (X P) fuel) openAll_loop1 σ =
+        execS (X P) (exec (X P) fuel) (.range .blank (.loc "l6") (.loc "l1") openAll_loop1.rbody) σ := fun _ => rfl
+    cases t1 <;>
+      (simp [openAll_body, Stmt.tl, oaJunk, hp, hx, closeEv] at hclose ⊢
+       rw [hclose]
+       cases t2 <;> simp)
+
+/-- **open_matches_source**: every path is handed to the registry, in order, whatever happened before; if all opened,
+    the sinks and a close function holding exactly them are returned and nothing is closed; if any failed, every sink that
+    did open is closed (in order) before the combined error is returned with nil writers and a nil close function -/
+theorem open_matches_source (P : Par) (ps ev : List Val) (fl0 : Env) (fuel : Nat) :
+    run (X P) (fuel + 1) "openAll" [.list ps] (("ev", .list ev) :: fl0) =
+      .done (openSpec P ps ev).1 (("ev", .list (openSpec P ps ev).2) :: fl0) :=
+  run_of_fin (X P) _ _ Gen.TransOpen.openAll _ _ _ _ rfl rfl (open_exec_matches_source P ps ev fl0 fuel)
 
 /-- does the registry open this path? -/
 def opens (P : Par) (p : Val) : Bool := (P.newSink p).2.isEmpty
@@ -669,7 +637,7 @@ theorem openedIdx_length : ∀ (outs : List Bool) (i : Nat), (OpenBuild.openedId
     `outs[i] = (path i opened)`: it fails exactly when the model fails, the sinks it holds are those of the paths that opened
     (in path order, as many as the model's `opened`), both returned lists are those sinks, every path reached the registry -/
 theorem open_is_openAll (P : Par) (ps : List Val) (ev : List Val) :
-    let R := ps.foldl (openStep P) ⟨[], [], [], ev⟩
+    let R := openR P ps ev
     let M := OpenBuild.openAll (ps.map (opens P))
     R.e.isEmpty = !M.err ∧
     R.c = (ps.filter (opens P)).map (fun p => .list (P.newSink p).1) ∧ R.w = R.c ∧
@@ -678,6 +646,8 @@ theorem open_is_openAll (P : Par) (ps : List Val) (ev : List Val) :
     R.ev = ev ++ ps.map (fun p => .list [TransOpen.nm "sinkRegistry.newSink", p]) := by
   obtain ⟨hw, hc, he, hev⟩ := open_fold P ps ⟨[], [], [], ev⟩
   simp only [List.nil_append] at hw hc he
+  show (openR P ps ev).e.isEmpty = _ ∧ _
+  simp only [openR]
   refine ⟨?_, hc, by rw [hw, hc], ?_, ?_, ?_, hev⟩
   · rw [he]
     simp only [OpenBuild.openAll]
@@ -701,5 +671,99 @@ theorem open_is_openAll (P : Par) (ps : List Val) (ev : List Val) :
     split <;> simp [openedIdx_length, List.filter_map, Function.comp_def]
   · simp only [OpenBuild.openAll]; split <;> simp
   · simp only [OpenBuild.openAll]; split <;> simp
+
+/-! ### `CombineWriteSyncers`, `Open`, `Config.openSinks` -/
+
+/-- no writers: a no-op syncer over io.Discard; otherwise the locked multi-writer over exactly the writers given -/
+def combineSpec (ws : List Val) : Val :=
+  if ws.isEmpty then .list [conV "zapcore.AddSync" [.list [.int 0]]]
+  else .list [conV "zapcore.Lock" [.list [conV "zapcore.NewMultiWriteSyncer" [.list ws]]]]
+
+theorem CombineWriteSyncers_exec_matches_source (P : Par) (ws : List Val) (fl : Env) (fuel : Nat) :
+    (exec (X P) (fuel + 1) CombineWriteSyncers_body ⟨[("p0", .list ws)], fl⟩).fin = some ([combineSpec ws], fl) := by
+  rw [exec_succ]
+  cases ws with
+  | nil => simp [CombineWriteSyncers_body, combineSpec]
+  | cons w r =>
+    have hp : ¬ ((r.length : Int) + 1 = 0) := by omega
+    simp [CombineWriteSyncers_body, combineSpec, hp]
+
+theorem CombineWriteSyncers_matches_source (P : Par) (ws : List Val) (fl : Env) (fuel : Nat) :
+    run (X P) (fuel + 1) "CombineWriteSyncers" [.list ws] fl = .done [combineSpec ws] fl :=
+  run_of_fin (X P) _ _ Gen.TransOpen.CombineWriteSyncers _ _ _ _ rfl rfl (CombineWriteSyncers_exec_matches_source P ws fl fuel)
+
+/-- `Open`: `open`, and on success the combined writer over exactly the sinks that were opened, with `open`'s close function -/
+def OpenOut (R : OA) : List Val × List Val :=
+  if R.e.isEmpty then ([combineSpec R.w, .list [closeText, .list R.c], .list []], R.ev) else openOut R
+
+def OpenSpec (P : Par) (ps ev : List Val) : List Val × List Val := OpenOut (openR P ps ev)
+
+theorem Open_exec_matches_source (P : Par) (ps ev : List Val) (fl0 : Env) (fuel : Nat) :
+    (exec (X P) (fuel + 2) Open_body ⟨[("p0", .list ps)], ("ev", .list ev) :: fl0⟩).fin =
+      some ((OpenSpec P ps ev).1, ("ev", .list (OpenSpec P ps ev).2) :: fl0) := by
+  have h1 := open_exec_matches_source P ps ev fl0 fuel
+  simp only [OpenSpec, openSpec] at h1 ⊢
+  generalize openR P ps ev = R at h1 ⊢
+  obtain ⟨w, c, e, ev1⟩ := R
+  rw [exec_succ]
+  cases e with
+  | nil =>
+    have h2 := CombineWriteSyncers_exec_matches_source P w (("ev", .list ev1) :: fl0) fuel
+    simp only [openOut, List.isEmpty_nil, if_true] at h1
+    simp [Open_body, OpenOut, retK_of_fin _ _ _ _ _ _ _ h1, retK_of_fin1 _ _ _ _ _ _ h2]
+  | cons e0 es =>
+    have hp : ¬ ((es.length : Int) + 1 = 0) := by omega
+    simp only [openOut, List.isEmpty_cons, Bool.false_eq_true, if_false] at h1
+    simp [Open_body, OpenOut, openOut, retK_of_fin _ _ _ _ _ _ _ h1, hp]
+
+/-- `Config.openSinks`: the outputs are opened first; if that fails NOTHING else happens (`open` has closed what it had
+    opened); otherwise the error outputs are opened, and if THAT fails (`open` has closed what it had opened of them) the
+    outputs' close function — holding exactly the output sinks — is called, once, before the error is returned; on
+    success neither close function is called -/
+def openSinksSpec (P : Par) (outs errs ev : List Val) : List Val × List Val :=
+  if (openR P outs ev).e.isEmpty then
+    if (openR P errs (openR P outs ev).ev).e.isEmpty then
+      ([combineSpec (openR P outs ev).w, combineSpec (openR P errs (openR P outs ev).ev).w, .list []],
+        (openR P errs (openR P outs ev).ev).ev)
+    else
+      ([.list [], .list [], .list (openR P errs (openR P outs ev).ev).e],
+        (openR P errs (openR P outs ev).ev).ev ++ closeEv (openR P errs (openR P outs ev).ev).c ++
+          [.list [TransOpen.nm "Closure.call", .list [closeText, .list (openR P outs ev).c]]])
+  else ([.list [], .list [], .list (openR P outs ev).e], (openR P outs ev).ev ++ closeEv (openR P outs ev).c)
+
+theorem openSinks_exec_matches_source (P : Par) (outs errs ev : List Val) (fl0 : Env)
+    (hO : Env.get "outputPaths" fl0 = some (.list outs)) (hE : Env.get "errorOutputPaths" fl0 = some (.list errs)) (fuel : Nat) :
+    (exec (X P) (fuel + 3) openSinks_body ⟨[], ("ev", .list ev) :: fl0⟩).fin =
+      some ((openSinksSpec P outs errs ev).1, ("ev", .list (openSinksSpec P outs errs ev).2) :: fl0) := by
+  have h1 := Open_exec_matches_source P outs ev fl0 fuel
+  have h2 := fun ev1 => Open_exec_matches_source P errs ev1 fl0 fuel
+  simp only [OpenSpec, openSinksSpec] at h1 h2 ⊢
+  generalize openR P outs ev = O at h1 ⊢
+  obtain ⟨w, c, e, ev1⟩ := O
+  rw [exec_succ]
+  cases e with
+  | cons e0 es =>
+    have hp : ¬ ((es.length : Int) + 1 = 0) := by omega
+    simp only [OpenOut, openOut, List.isEmpty_cons, Bool.false_eq_true, if_false] at h1
+    simp [openSinks_body, Env.get, hO, retK_of_fin _ _ _ _ _ _ _ h1, hp]
+  | nil =>
+    simp only [OpenOut, List.isEmpty_nil, if_true] at h1
+    have h2' := h2 ev1
+    generalize openR P errs ev1 = E at h2' ⊢
+    obtain ⟨w', c', e', ev2⟩ := E
+    cases e' with
+    | cons e0 es =>
+      have hp : ¬ ((es.length : Int) + 1 = 0) := by omega
+      simp only [OpenOut, openOut, List.isEmpty_cons, Bool.false_eq_true, if_false] at h2'
+      simp [openSinks_body, Env.get, Env.set, hO, hE, retK_of_fin _ _ _ _ _ _ _ h1, retK_of_fin _ _ _ _ _ _ _ h2', hp, nm_closure]
+    | nil =>
+      simp only [OpenOut, List.isEmpty_nil, if_true] at h2'
+      simp [openSinks_body, Env.get, hO, hE, retK_of_fin _ _ _ _ _ _ _ h1, retK_of_fin _ _ _ _ _ _ _ h2']
+
+theorem openSinks_matches_source (P : Par) (outs errs ev : List Val) (fl0 : Env)
+    (hO : Env.get "outputPaths" fl0 = some (.list outs)) (hE : Env.get "errorOutputPaths" fl0 = some (.list errs)) (fuel : Nat) :
+    run (X P) (fuel + 3) "openSinks" [] (("ev", .list ev) :: fl0) =
+      .done (openSinksSpec P outs errs ev).1 (("ev", .list (openSinksSpec P outs errs ev).2) :: fl0) :=
+  run_of_fin (X P) _ _ Gen.TransOpen.openSinks _ _ _ _ rfl rfl (openSinks_exec_matches_source P outs errs ev fl0 hO hE fuel)
 
 end ZapVerif.C19
